@@ -564,7 +564,8 @@ func c12(c *Ctx) {
 	}
 	wg.Wait()
 	var notes []string
-	defer func() { c.Extra["notes"] = notes }()
+	witnesses := map[string]string{} // witness kind -> outcome (reproduced / not-reproduced / setup-failed: ... / no-report)
+	defer func() { c.Extra["notes"] = notes; c.Extra["finding_witnesses"] = witnesses }()
 	for _, b := range batches {
 		var lines []string
 		for _, j := range b.jobs {
@@ -582,6 +583,7 @@ func c12(c *Ctx) {
 				if !found {
 					notes = append(notes, "NOTE witness "+j.kind+": no report from the child ("+Trunc(b.r.Crash, 200)+")")
 					c.Count("witness:" + j.kind + ":no-report")
+					witnesses[j.kind] = "no-report"
 				}
 			}
 		}
@@ -614,6 +616,7 @@ func c12(c *Ctx) {
 					n = n[:i]
 				}
 				c.Count("witness:" + j.kind + ":" + n)
+				witnesses[j.kind] = o.Note
 				if n != "reproduced" {
 					notes = append(notes, "NOTE witness "+j.kind+" ("+j.line+"): "+o.Note)
 				}
